@@ -161,6 +161,8 @@ func runProp(p *Prop, tier string, seed int64, outDir string, corpusDir string) 
 	}
 	defer sxf.Close()
 	var sxIDs []int
+	sxBytes := 0
+	const sxBudget = 400 << 20
 	for i, c := range cases {
 		pmsg := safeExec(c)
 		ok, msg := false, pmsg
@@ -204,9 +206,13 @@ func runProp(p *Prop, tier string, seed int64, outDir string, corpusDir string) 
 		if pmsg != "" {
 			continue
 		}
-		if t := c.Sx(); t != "" {
-			fmt.Fprintf(sxf, "%d %s\n", p.Num, t)
-			sxIDs = append(sxIDs, i)
+		// the model runs on at most sxBudget bytes of cases per check (the oracle above judges every case)
+		if sxBytes < sxBudget {
+			if t := c.Sx(); t != "" {
+				fmt.Fprintf(sxf, "%d %s\n", p.Num, t)
+				sxIDs = append(sxIDs, i)
+				sxBytes += len(t)
+			}
 		}
 	}
 	if len(sum.Samples) == 0 && len(cases) > 0 {
